@@ -9,7 +9,7 @@ from props.parts import streamstate, sendflow, wireview
 VO_TARGETS = ["Properties/StreamState.vo"]
 
 PROFILES = {
-    "C04": ("mixed", "reset", "limits", "shutdown", "queue", "bp"),
+    "C04": ("mixed", "reset", "limits", "shutdown", "queue", "bp", "idspace"),
     "C17": ("reset", "lastframe", "mixed", "lastframe", "queue", "lastframe", "shutdown", "limits"),
     "C07": ("shutdown", "reset", "queue", "mixed", "flow", "queue"),
     "C09": ("chaos", "legal", "race", "chaos", "race", "legal", "mixed"),
